@@ -442,8 +442,11 @@ class Facts(dict):
     truth of `x != 0` on the path whether the code tested `x != 0` or `x == 0`."""
     def __init__(self, pairs):
         dict.__init__(self)
+        self.contradiction = False      # the same condition taken both ways on one path: infeasible unless its operands were rebound
         for cs, pol in pairs:
             f = _fold(cs, pol)
+            if dict.__contains__(self, f[0]) and dict.__getitem__(self, f[0]) != f[1]:
+                self.contradiction = True
             dict.__setitem__(self, f[0], f[1])
 
     def get(self, cs, default=None):
